@@ -18,9 +18,10 @@ model's integer comparisons).  Addresses: strings from a per-case pool, handed t
 rank in Python's string order.
 """
 import random
+import os
 import sys
 
-REPO = '/repo'
+REPO = os.environ.get('VERIF_REPO', '/repo')
 if REPO not in sys.path:
     sys.path.insert(0, REPO)
 
